@@ -4,6 +4,7 @@ package main
 // contracts, effects (ghost trace counters), havoc defaults.
 
 import (
+	"sort"
 	"fmt"
 	"go/token"
 	"go/types"
@@ -1074,8 +1075,15 @@ func (fr *Frame) callSiteAsserts(st *State, g string, cname string, after bool, 
 		}
 		key := "assert:" + a.Callee
 		t.callSeq[key+fmt.Sprint(k)]++
-		if a.Index >= 0 && t.callSeq[key+fmt.Sprint(k)] != a.Index+1 {
-			continue
+		if a.Index >= 0 {
+			// NAME#k: the k-th call site of NAME in source order (not in translation order)
+			if ord := t.sourceOrdinal(a.Callee, pos); ord >= 0 {
+				if ord != a.Index {
+					continue
+				}
+			} else if t.callSeq[key+fmt.Sprint(k)] != a.Index+1 {
+				continue
+			}
 		}
 		env := t.newEnvAt(st)
 		if callee != nil {
@@ -1115,8 +1123,14 @@ func (fr *Frame) callSiteAssertsAfter(st *State, g string, cname string, args, r
 		}
 		key := fmt.Sprintf("assertafter:%s%d", a.Callee, k)
 		t.callSeq[key]++
-		if a.Index >= 0 && t.callSeq[key] != a.Index+1 {
-			continue
+		if a.Index >= 0 {
+			if ord := t.sourceOrdinal(a.Callee, pos); ord >= 0 {
+				if ord != a.Index {
+					continue
+				}
+			} else if t.callSeq[key] != a.Index+1 {
+				continue
+			}
 		}
 		env := t.newEnvAt(st)
 		for i, p := range callee.Params {
@@ -1659,4 +1673,49 @@ func closureWrites(fn *ssa.Function) map[int]bool {
 		}
 	}
 	return out
+}
+
+// siteName: the name under which a call site is matched by `at call NAME`.
+func (fr *Frame) siteName(c *ssa.CallCommon) string {
+	if _, ok := c.Value.(*ssa.Builtin); ok {
+		return ""
+	}
+	if c.IsInvoke() {
+		if mi, ok := c.Value.(*ssa.MakeInterface); ok {
+			if callee := fr.vc.eng.prog.LookupMethod(mi.X.Type(), c.Method.Pkg(), c.Method.Name()); callee != nil {
+				return canonFunc(callee)
+			}
+		}
+		return ifaceMethodName(c.Value.Type(), c.Method)
+	}
+	if callee := c.StaticCallee(); callee != nil {
+		return canonFunc(callee)
+	}
+	return fr.funcValueKey(c.Value)
+}
+
+// sourceOrdinal: index of the call at pos among the call sites of the function whose name
+// matches callee, ordered by source position; -1 if the call is not a site of this function
+// (inlined callee).
+func (fr *Frame) sourceOrdinal(callee string, pos token.Pos) int {
+	var ps []token.Pos
+	for _, b := range fr.fn.Blocks {
+		for _, in := range b.Instrs {
+			ci, ok := in.(ssa.CallInstruction)
+			if !ok {
+				continue
+			}
+			n := fr.siteName(ci.Common())
+			if n == callee || strings.HasSuffix(n, "."+callee) || strings.HasSuffix(n, "/"+callee) {
+				ps = append(ps, in.Pos())
+			}
+		}
+	}
+	sort.Slice(ps, func(i, j int) bool { return ps[i] < ps[j] })
+	for i, p := range ps {
+		if p == pos {
+			return i
+		}
+	}
+	return -1
 }
